@@ -66,10 +66,24 @@ def check_roundtrip(case):
     g = layout.interpret(Tree(node, metadata={'id': 'c11', 'snt': 'x y'}), m)
     if case.get('strip'):
         g = Graph(g.triples, top=g.top, metadata=g.metadata)
+        if case.get('implicit'):
+            # hand-built, top not stated: it is the source of the first triple, here a relation of the top node
+            first = [t for t in g.triples if t[0] == g.top and t[1] != ':instance'][:1]
+            g = Graph(first + [t for t in g.triples if t not in first], metadata=g.metadata)
     # precondition
+    gvars = {t_[0] for t_ in g.triples}
     for s, r, t in g.triples:
         if r == ':instance' and t in deconcepts:
-            return []
+            # a node with a dereifiable concept is fine as long as it is not collapsible: collapsible (conservatively) = exactly
+            # two relations, their roles are the argument roles of some reification of the concept, and the source argument
+            # is a node
+            rels = [t_ for t_ in g.triples if t_[0] == s and t_[1] != ':instance']
+            if len(rels) == 2:
+                for role_, c_, sr_, tr_ in table['reifications']:
+                    if c_ == t and {rels[0][1], rels[1][1]} == {sr_, tr_}:
+                        src_ = [t_[2] for t_ in rels if t_[1] == sr_]
+                        if sr_ == tr_ or (src_ and src_[0] in gvars):
+                            return []
         if r in reifiable and r not in ok_roles:
             return []
     lab = '%s%s under %s' % (fmt(node), ' (markers stripped)' if case.get('strip') else '', spec.get('name'))
@@ -127,6 +141,17 @@ def check_protected(case):
     m = build_model(spec)
     g = graphm.graph_from_json(case['g'])
     v = case['node']
+    if case['why'] == 'model-says-no':
+        # the model is a subclass that narrows the documented query is_concept_dereifiable(): this concept is an ordinary
+        # predicate for it, so the node is an ordinary node
+        from penman.model import Model
+        t_ = build_table(spec)
+        concept_ = [t[2] for t in g.triples if t[0] == v and t[1] == ':instance'][0]
+
+        class Narrowed(Model):
+            def is_concept_dereifiable(self, concept):
+                return concept != concept_ and super().is_concept_dereifiable(concept)
+        m = Narrowed(roles={r: {} for r in t_['roles']}, normalizations=t_['normalizations'], reifications=[tuple(r) for r in t_['reifications']])
     mine = [t for t in g.triples if t[0] == v]
     d = transform.dereify_edges(g, m)
     f = []
@@ -209,7 +234,7 @@ def _rt_cases(draw, large=False):
     j = draw(trees.wf_trees(spec, max_nodes=30 if large else 6, role_pool=(fwd, inv), emptyconcept=False, wide=8 if large else 3))
     if draw(st.integers(0, 5)) == 0:
         j = trees.add_decoy(draw, j, table)         # looks reified but has a third relation: not collapsible
-    return {'k': 'rt', 'tree': j, 'model': spec, 'strip': draw(st.integers(0, 3)) == 0,
+    return {'k': 'rt', 'tree': j, 'model': spec, 'strip': draw(st.integers(0, 2)) == 0, 'implicit': draw(st.booleans()),
             'opts': [pick(draw, OPTS)]}
 
 
@@ -218,7 +243,7 @@ def _protected_cases(draw):
     spec = {'name': 'amr'}
     table = build_table(spec)
     role, concept, sr, tr = pick(draw, table['reifications'])
-    why = draw(st.sampled_from(['top', 'top-implicit', 'third-relation', 'referenced']))
+    why = draw(st.sampled_from(['top', 'top-implicit', 'third-relation', 'referenced', 'model-says-no']))
     x = '_' if draw(st.booleans()) else 'r'
     ts = [['a', ':instance', 'alpha'], ['b', ':instance', 'beta'], [x, ':instance', concept], [x, sr, 'a'], [x, tr, 'b']]
     top = 'a'
@@ -231,6 +256,8 @@ def _protected_cases(draw):
         if third in ts:
             third = [x, third[1], 'continent']
         ts.insert(draw(st.integers(3, len(ts))), third)
+    elif why == 'model-says-no':
+        pass            # an ordinary collapsible shape; only the model (a subclass narrowing is_concept_dereifiable) protects it
     else:
         # the reference may come before or after the node's own triples (a forward re-entrancy in the text)
         ts.insert(draw(st.integers(1, len(ts))), [draw(st.sampled_from(['a', 'b'])), draw(st.sampled_from([':ARG0', ':mod', ':topic'])), x])
